@@ -54,8 +54,12 @@ fn c08_num_bits_sufficient() {
     if nb < 64 {
         assert!(amp < (1u64 << nb));
     }
-    if nb > 0 {
+    // minimal among the widths a BitUnpacker accepts (0..=56 and 64)
+    if nb > 0 && nb <= 56 {
         assert!(amp >= (1u64 << (nb - 1)));
+    }
+    if nb == 64 {
+        assert!(amp >= (1u64 << 56));
     }
     // BitUnpacker::new accepts only widths <= 56 or 64
     assert!(nb <= 56 || nb == 64);
